@@ -54,6 +54,8 @@ pub struct IrEmitter<'a> {
     needs_serde: bool,
     /// Whether tokio is needed (for async runtime)
     needs_tokio: bool,
+    /// Name of the function to mark `#[test]` (set by the test runner; `None` for normal builds).
+    test_function: Option<String>,
     /// Whether axum web framework is needed
     needs_axum: bool,
     /// Function registry for call-site type checking
@@ -95,6 +97,7 @@ impl<'a> IrEmitter<'a> {
             emit_zen_in_main: false,
             needs_serde: false,
             needs_tokio: false,
+            test_function: None,
             needs_axum: false,
             function_registry,
             struct_derives: std::collections::HashMap::new(),
@@ -143,6 +146,11 @@ impl<'a> IrEmitter<'a> {
     /// Set whether serde is needed.
     pub fn set_needs_serde(&mut self, needs: bool) {
         self.needs_serde = needs;
+    }
+
+    /// Mark the function called `name` with `#[test]` so that `cargo test` actually runs it.
+    pub fn set_test_function(&mut self, name: Option<String>) {
+        self.test_function = name;
     }
 
     /// Set whether tokio is needed.
